@@ -470,7 +470,9 @@ func charts(reports []*telemetryReport, cfg *config.Config) (*chartdata, error) 
 				ID:     "charts:" + pg.Name + ":" + c.Name,
 				Name:   c.Name,
 				Data:   cdata,
-				Active: cfg.HasCounter(pg.Name, c.Name) || cfg.HasCounterPrefix(pg.Name, c.Name),
+				// A chart is built from counters, from the buckets of a counter
+				// prefix, or from stack counters of that name.
+				Active: cfg.HasCounter(pg.Name, c.Name) || cfg.HasCounterPrefix(pg.Name, c.Name) || cfg.HasStack(pg.Name, c.Name),
 			}
 			prog.Counters = append(prog.Counters, count)
 			sort.Slice(count.Data, func(i, j int) bool {
